@@ -211,6 +211,26 @@ func VerifC03() {
 			vSign(vAcct("ir0"), vBool("auditorSigns"))
 			done, _ = vInvoke("audit", "put", blob)
 			check(done, vBool("auditorSigns"), "C03/audit.put-needs-the-auditor")
+		case 4, 5: // the Inner Ring was re-designated (ir0..2 -> nir0..2) in the block right before the report:
+			// the list in force is the new one already (RoleManagement: in force from the next block on)
+			who := "ir0" // case 4: a member the designation dropped, whatever it signs
+			if m == 5 {
+				who = "nir0" // case 5: a member the designation brought in
+			}
+			blob := []byte{0x0a, 0, 0x11, 5, 0, 0, 0, 0, 0, 0, 0, 0x1a, 0x22, 0x0a, 32}
+			blob = append(blob, vBytes("cid", 32)...)
+			blob = append(blob, 0x22, 33)
+			blob = append(blob, vKey(who)...)
+			vSetIRNamed("nir", 3)
+			sign()
+			vSign(vAcct(who), vBool("auditorSigns"))
+			done, _ = vInvoke("audit", "put", blob)
+			if m == 4 {
+				vAssert(!(done && vEffects()), "C03/audit.put-by-a-member-the-last-designation-dropped-is-refused")
+				vCover("dropped-member-tried")
+			} else {
+				check(done, vBool("auditorSigns"), "C03/audit.put-needs-the-auditor")
+			}
 		}
 	case 4: // main chain: neofs (Notary enabled), processing
 		vDeploy("neofs", false, vContractHash("processing"), []any{vMemberKey(0)}, []any{[]byte("InnerRingCandidateFee"), 10, []byte("WithdrawFee"), 3})
